@@ -7,11 +7,15 @@
 
    route_eq O T (Spec/Table.v): every 32-bit key matched by O is routed by T's first matching entry to
    the same set of links and cores, that entry listing O's source directions, or matches nothing in T
-   and O's entry went straight through from a single link (hardware default routing). *)
+   and O's entry went straight through from a single link (hardware default routing).
+
+   minimiser_domain t (Spec/Table.v): keys and masks are 32-bit with no key bit outside the mask, every
+   entry has at least one source direction, and the table is listed in increasing order of generality
+   or is orthogonal (no two entries match a common 32-bit key).  The empty table is in the domain. *)
 From Coq Require Import ZArith List Bool.
 Require Import Rig.Generated.GenTable Rig.Generated.GenTableEnums.
 Require Import Rig.Model.Base Rig.Model.Table Rig.Spec.Table.
-Require Import Rig.Proofs.TableCheck Rig.Proofs.Table.
+Require Import Rig.Proofs.TableCheck Rig.Proofs.Table Rig.Proofs.TableOC3.
 Import ListNotations.
 Open Scope Z_scope.
 
@@ -37,14 +41,44 @@ Theorem C04_remove_default_route_eq :
       end.
 Proof. exact remove_default_spec. Qed.
 
-(* U -- the try-each-method front end for one table, given that ordered covering does on this table
-   what a method must (method_ok, Proofs/Table.v: routes like the input, not longer, target met or the
-   error reports the size it reaches when run to the end): the result routes like the input, is not
-   longer and meets the target, or the error reports the best size any method reached, which is above
-   the target. *)
+(* U -- the merging stage of ordered covering (ordered_covering(..., no_raise=True) from an empty
+   aliases dictionary), any target: it terminates with a table in which every key matched by the input
+   is still matched, by an entry with the same route that lists the input entry's sources, and which is
+   not longer.  (Loop invariant: Proofs/TableOC.v, Inv; _Merge.apply preserves it for a merge passing the
+   up-check and the down-check; _refine_merge establishes both; the down-check loop terminates.) *)
+Theorem C04_ordered_covering_stage_route_eq :
+  forall t target,
+  minimiser_domain t ->
+  exists T A, ordered_covering t target [] true = Ok (T, A)
+              /\ (forall k e, key32 k -> lookup t k = Some e ->
+                              exists e', lookup T k = Some e' /\ routes_like e e')
+              /\ len T <= len t.
+Proof. exact ordered_covering_stage_spec. Qed.
+
+(* U -- ordered_covering.minimise (merging, then default-route removal) on every table of the domain:
+   without a target it returns a table [full] that routes like the input and is not longer; with a
+   target it returns a table that routes like the input, is not longer and meets the target, or raises
+   MinimisationFailedError reporting exactly len full > target.  It never hits the model's loop bounds
+   and raises nothing else. *)
+Theorem C04_ordered_covering_route_eq :
+  forall t,
+  minimiser_domain t ->
+  exists full,
+    oc_minimise t None = Ok full /\ route_eq t full /\ len full <= len t /\
+    forall tl,
+      match oc_minimise t (Some tl) with
+      | Ok r => route_eq t r /\ len r <= len t /\ len r <= tl
+      | Failed n => n = len full /\ tl < n
+      | OtherError | OutOfFuel => False
+      end.
+Proof. exact oc_minimise_spec. Qed.
+
+(* U -- the try-each-method front end for one table: the result routes like the input, is not longer
+   and meets the target; or the error reports the best size any method reached (the input's length, what
+   default-route removal reaches, what ordered covering reaches), which is above the target. *)
 Theorem C04_minimise_table_route_eq :
   forall t target,
-  method_ok oc_minimise t ->
+  minimiser_domain t ->
   match minimise_table t target with
   | Ok r => route_eq t r /\ len r <= len t /\ (forall tl, target = Some tl -> len r <= tl)
   | Failed n =>
@@ -52,7 +86,7 @@ Theorem C04_minimise_table_route_eq :
                  n = Z.min (Z.min (len t) (full_size remove_default t)) (full_size oc_minimise t)
   | OtherError | OutOfFuel => False
   end.
-Proof. exact minimise_table_spec. Qed.
+Proof. exact minimise_table_domain_spec. Qed.
 
 (* U -- the front end for many chips (targets None / int / dictionary): every chip's table is
    minimised as by minimise_table with that chip's target; chips whose result is empty are dropped;
@@ -61,7 +95,7 @@ Proof. exact minimise_table_spec. Qed.
 Theorem C04_minimise_tables_route_eq :
   forall ts tg,
   NoDup (map fst ts) ->
-  (forall c t, In (c, t) ts -> method_ok oc_minimise t) ->
+  (forall c t, In (c, t) ts -> minimiser_domain t) ->
   match minimise_tables ts tg with
   | TablesOk out =>
       (forall c t, In (c, t) ts ->
@@ -75,7 +109,14 @@ Theorem C04_minimise_tables_route_eq :
   | TablesOther => exists c t, In (c, t) ts /\ target_for tg c = None
   | TablesOutOfFuel => False
   end.
-Proof. exact minimise_tables_spec. Qed.
+Proof. exact minimise_tables_domain_spec. Qed.
+
+(* the domain is inhabited by a table on which ordered covering really merges (0000 and 0001 with one
+   route become 000X; 0010 with another route stays) *)
+Example C04_domain_satisfiable :
+  minimiser_domain ex_table
+  /\ oc_minimise ex_table None = Ok [mkEntry 8 2 15 16777216; mkEntry 4 0 14 16777216].
+Proof. exact ex_table_domain. Qed.
 
 (* the validator accepts a genuine merge and rejects a wrong one (it is not constantly false/true) *)
 Example C04_validator_discriminates :
